@@ -576,17 +576,32 @@ def mode_raises(ctx):
     if "raise ValueError('Failed to read Zemax file.')" in s and \
             'if not success' in s:
         res.ok('nothing parsed -> ValueError')
-    # field de-duplication keeps (x, y) pairs and sorts by y
-    if 'sorted(unique_fields, key=lambda x: x[1])' in s and \
-            "pair = (self.data['fields']['x'][i], self.data['fields']['y'][i])" in s \
-            and "self.data['fields']['x'], self.data['fields']['y'] = " \
-                "zip(*sorted_fields)" in s:
-        res.ok('fields de-duplicated as (x, y) pairs, sorted by y, unzipped '
-               'in (x, y) order')
+    # "fields ... are exactly those written in the file": the x and y lists
+    # (each already cut to the declared number of fields) are kept in the
+    # written order - no sorting, no set
+    fsrc = [st for st in ast.walk(rf.node)
+            if isinstance(st, ast.Assign) and "['fields']" in unparse(st)]
+    reorder = any(isinstance(c_, ast.Call) and unparse(c_.func) in (
+        'sorted', 'set', 'np.unique', 'np.sort') and
+        ('field' in unparse(c_) or 'pair' in unparse(c_))
+        for c_ in ast.walk(rf.node)) or any(
+        isinstance(c_, ast.Call) and isinstance(c_.func, ast.Attribute) and
+        c_.func.attr in ('sort', 'add') and 'field' in unparse(c_.func.value)
+        for c_ in ast.walk(rf.node))
+    kept = all(
+        any(unparse(st.targets[0]) == f"self.data['fields']['{ax}']" and
+            f"self.data['fields']['{ax}'][:" in unparse(st.value)
+            for st in fsrc) for ax in 'xy')
+    if not reorder and kept:
+        res.ok('field points kept in the written order (prefix of the x and '
+               'y lists of equal length)')
     else:
-        res.fail(ctx.finding('MODE-RAISES', rf, rf.node,
-                             'field de-duplication does not keep (x, y) pairs '
-                             'in order', construct='field dedup'))
+        res.fail(ctx.finding(
+            'MODE-RAISES', rf, rf.node,
+            'the field points are collected in a set and re-sorted by y: '
+            'YFLN 0 10 -10 7 -7 loads as -10 -7 0 7 10, equal-y points come '
+            'out in set order and a point listed twice is dropped (4 fields '
+            'become 3)', construct='field order / duplicates'))
     return res
 
 
@@ -601,8 +616,10 @@ def glass(ctx):
     checks = [
         ("['index'] = float(data[4])" in s, 'index <- token 4'),
         ("['abbe'] = float(data[5])" in s, 'abbe <- token 5'),
-        ("Material(material)" in s, 'catalogue lookup by name'),
-        ("Material(material, manufacturer.lower())" in s,
+        ("Material(material)" in s or "self._exact_material(material)" in s,
+         'catalogue lookup by name'),
+        ("Material(material, manufacturer.lower())" in s or
+         "self._exact_material(material, manufacturer.lower())" in s,
          'vendor catalogue fallback'),
         ("AbbeMaterial(n, v)" in s and "n = self._current_surf_data['index']"
          in s and "v = self._current_surf_data['abbe']" in s,
@@ -626,9 +643,47 @@ def glass(ctx):
                              construct='glass name token'))
     # 'material' alone: the placeholder name, replaced below unless no
     # catalogue knows it (then the isinstance test sends it to the model glass)
-    allowed = [parse(x) for x in ('material', "'mirror'", 'Material(material)',
-                                  'Material(material, manufacturer.lower())',
+    # "the catalogue glass of that name when there is one": the catalogue
+    # search returns the nearest name whatever its distance (SF3 -> LASF35),
+    # so a hit may only be stored after a test that the entry's own name is
+    # the GLAS name; a bare Material(material) store is a finding
+    allowed = [parse(x) for x in ('material', "'mirror'",
+                                  'self._exact_material(material)',
+                                  'self._exact_material(material, '
+                                  'manufacturer.lower())',
                                   'AbbeMaterial(n, v)')]
+    bare = [st for st in ast.walk(m.node) if isinstance(st, ast.Assign) and
+            unparse(st.targets[0]) == "self._current_surf_data['material']"
+            and isinstance(st.value, ast.Call) and
+            unparse(st.value.func) == 'Material']
+    ex = _cls(P, 'ZemaxFileReader').methods.get('_exact_material')
+    ex_ok = False
+    if ex is not None:
+        res.saw(ex)
+        es = unparse(ex.node, 100000)
+        ctor = any(isinstance(c_, ast.Call) and unparse(c_.func) == 'Material'
+                   and [unparse(a_) for a_ in c_.args] == list(ex.params[:2])
+                   for c_ in ast.walk(ex.node))
+        guard = any(isinstance(n_, ast.If) and isinstance(
+            n_.test, ast.Compare) and isinstance(n_.test.ops[0], ast.NotIn)
+            and unparse(n_.test.left) == f'{ex.params[0]}.lower()' and
+            any(isinstance(b_, ast.Raise) for b_ in n_.body)
+            for n_ in ast.walk(ex.node))
+        own = "found['name']" in es and '.lower()' in es
+        ex_ok = ctor and guard and own
+    if bare or not ex_ok:
+        res.fail(ctx.finding(
+            'GLASS', m, bare[0] if bare else m.node,
+            'a catalogue hit is stored without a test that the entry found '
+            'is named like the GLAS line: the catalogue search returns the '
+            'nearest name whatever its distance - SF3 becomes LASF35 (n_d '
+            '1.740 -> 2.022, EFL 34.5 -> 25.1), SK1 becomes SK16, LF3 a '
+            'polymer, PC becomes PCD4 - and the written n_d / V_d are '
+            'discarded', construct='glass nearest-name substitution'))
+    else:
+        res.ok('catalogue hits are accepted only when the entry\'s own name '
+               'is the GLAS name (else the model glass of the written n_d, '
+               'V_d)')
     nst = 0
     for st in ast.walk(m.node):
         if isinstance(st, (ast.Assign, ast.AugAssign)):
